@@ -36,7 +36,7 @@ def run_jobs(ctx, exe, scen, jobs, tag, nproc=8, want_ops=False, timeout=1800):
         with open(outp) as f:
             for line in f:
                 res.append(json.loads(line))
-    return res
+    return inject_conc_fault(res)
 
 
 def model_jobs(ctx, proj_module, scen_defs, cfg_consts, pc_op, thread_names, label, step_label="PStep", workers=4, max_states=400000):
